@@ -74,6 +74,12 @@ bool expected(const Tree& t, int c, bool attr, const std::string& level, const P
             relClass = "from-is-ancestor";
         }
     }
+    if (attr && cnt.text == "@k|*") {
+        // the count pattern matches the attribute itself and every element: the attribute, then its ancestors-or-self and the elements before it
+        if (level == "single") { out.push_back(1); return true; }      // the attribute is the first ancestor-or-self that matches; it has no siblings
+        if (level == "multiple") { std::vector<int> rev; rev.push_back(1); Pat star; star.present = true; Alt a; a.name = "*"; star.alts.push_back(a); for (int x = c; x >= 0 && x != f; x = t.n[x].parent) rev.push_back(1 + precedingSiblingsMatching(t, x, star, cur)); out.assign(rev.rbegin(), rev.rend()); return true; }
+        int k = 1; for (int i = (f < 0 ? 0 : f + 1); i <= c; ++i) ++k; out.push_back(k); return true;
+    }
     if (attr && !cnt.present) {
         // default count pattern of an attribute: attributes with the same name.  An attribute has no siblings.
         // level="any" counts within the union of the preceding and ancestor-or-self axes, which hold no attribute but the current one
@@ -180,7 +186,7 @@ struct C17 : public Driver {
             s["count"] = cnt; s["from"] = g.chance(1, 3) ? name() : std::string(); s["token"] = g.pick(toks);
             // a fifth of the sets number by value expression instead (the rounding of xsl:number value=)
             if (g.chance(1, 5)) { static const std::vector<std::string> vals = { "count(preceding::*) div 2", "(count(preceding::*) + count(ancestor::*)) div 4", "count(*) + 0.5", "count(preceding-sibling::*) * 1.5 + 1", "count(preceding::*) + 1", "count(preceding::*) * 97 + 650", "(count(preceding::*) + 1) * 676", "count(preceding::*) * 13 + 1900", "xalan:evaluate(concat(&quot;'&quot;, count(preceding::*) + 1, &quot;'&quot;))", "number(xalan:evaluate(concat(&quot;'&quot;, count(preceding::*) + 2, &quot;'&quot;))) + count(*)" }; s["value"] = g.pick(vals); s["from"] = ""; s["count"] = ""; }
-            else if (g.chance(1, 5)) s["attr"] = true;       // number the attribute k of every element that has one
+            else if (g.chance(1, 5)) { s["attr"] = true; if (g.chance(1, 3)) s["count"] = "@k|*"; }       // number the attribute k of every element that has one; a third with a pattern that matches it too
             else if (g.chance(1, 8)) { static const std::vector<std::string> big = { "(count(preceding::*) + 1) * 98765432101", "count(preceding::*) * 1234567 + 123456789012", "(count(preceding::*) + 1) * 987654321" }; static const std::vector<std::string> seps = { ",", ".", "'", " " };
                 s["value"] = g.pick(big); s["from"] = ""; s["count"] = ""; s["token"] = "1"; s["gsep"] = g.pick(seps); s["gsize"] = (long long)g.range(1, 5); }      // nine to fourteen digits, grouped
             sets.push(s);
